@@ -151,6 +151,8 @@ def norm_body(ctx, case):
     # compared in squared form: |r^2 - sum a^2| <= 64 n eps B (+ the rounding of the final sqrt/square, 8 eps S);
     # B = sum over |.| of the products the representation multiplies out (== S for dense/sparse holders)
     n = (cm.terms(h) ** 2) * A.size + 1
+    if case.get("tight"):
+        n = cm.tight_count(h)  # (round 3) the rounding-error count of the Gram / full-then-sum algorithms themselves
     tol = 64 * n * ref.EPS * B + 8 * ref.EPS * S + 1e-290
     ctx.check(abs(r * r - S) <= tol, "norm-value", f"norm {r!r}, norm^2 {r * r!r} vs sum of squares {S!r} tol {tol:.3g}")
     if cm.intvalued(h) and B < 2.0**50:
